@@ -6,6 +6,7 @@ import (
 	"path/filepath"
 	"sort"
 	"strings"
+	"sync"
 	"time"
 
 	"github.com/gopacket/gopacket"
@@ -28,6 +29,9 @@ type (
 		indexDir         string
 		snapshotDir      string
 		snapshotFilename string
+		// protects knownPcaps and packetCount, they are written by the import
+		// job and read by the manager at the same time
+		mtx sync.Mutex
 	}
 )
 
@@ -552,10 +556,12 @@ outer:
 		b.snapshotFilename = filepath.Base(newSnapshotFilename)
 	}
 
+	b.mtx.Lock()
 	b.knownPcaps = append(b.knownPcaps, newPcapInfos...)
 	for _, pi := range newPcapInfos {
 		b.packetCount += pi.PacketCount
 	}
+	b.mtx.Unlock()
 	b.snapshots = newSnapshots
 
 	outputFiles := []string{}
@@ -567,9 +573,13 @@ outer:
 }
 
 func (b *Builder) PacketCount() uint {
+	b.mtx.Lock()
+	defer b.mtx.Unlock()
 	return b.packetCount
 }
 
 func (b *Builder) KnownPcaps() []*pcapmetadata.PcapInfo {
+	b.mtx.Lock()
+	defer b.mtx.Unlock()
 	return b.knownPcaps
 }
